@@ -925,6 +925,19 @@ impl Meta {
             1 if mutated => "CONT".to_string(),
             2 if mutated => "RETURN".to_string(),
             3 if mutated => "NEXT".to_string(),
+            // a function defined by the earlier run must be gone with the old program
+            4 if mutated => {
+                let defs: Vec<(usize, usize)> = p1
+                    .lines
+                    .iter()
+                    .flat_map(|l| l.sts.iter())
+                    .filter_map(|st| if let gen::St::Def(k, ps, _) = st { Some((*k, ps.len())) } else { None })
+                    .collect();
+                match defs.first() {
+                    Some((k, ar)) => format!("PRINT {}({})", gen::FNS[*k], vec!["1"; *ar].join(",")),
+                    None => "RUN".to_string(),
+                }
+            }
             _ => "RUN".to_string(),
         };
         script.push(fin.clone());
